@@ -228,6 +228,8 @@ class SymEnv:
                     return self.g.rmul(a, b)
                 return a * b
             if isinstance(n.op, ast.Div):
+                if getattr(self.g, 'uf_mul', False):
+                    return self.g.rdiv(a, b)
                 return a / b
         if isinstance(n, ast.Compare):
             items = [self.e(n.left)] + [self.e(c) for c in n.comparators]; out = []
